@@ -246,6 +246,22 @@ def run(ctx, rep, model=True):
                     c07.flush_model(rep, batch)
                     return
         c07.flush_model(rep, batch)
+    # coarse boxes that lie wholly under ONE finer box (eight boxes of 4^3 cells, a fine box of 16 x 16 x 8 cells over four of them):
+    # the plane meets them, so the written level 0 lists them
+    spec = plotgen.random_spec(ctx.rng, ndims=3, nlev=2, nf=2, data="affine", B=4, nblk=[2, 2, 2], origin=True, aniso=True, single0=False)
+    spec["levels"] = [[[[4 * i, 4 * j, 4 * k], [4 * i + 3, 4 * j + 3, 4 * k + 3]] for i in range(2) for j in range(2) for k in range(2)],
+                      [[[0, 0, 0], [15, 15, 7]]]]
+    spec["layout"] = plotgen.random_layout(ctx.rng, spec["levels"], "scatter")
+    rep.count("coarse-boxes-wholly-under-one-finer-box")
+    path = ctx.newdir("c16_"); truth = plotgen.materialize(spec, path)
+    names = list(dedup_names(spec["fields"]))
+    batch = [] if model else None
+    for cn in range(3):
+        g = spec["geo_low"][cn]
+        for k, cells in enumerate((1.25, 2.5)):
+            run_case(ctx, rep, spec, cn, f"nested:{cells}", g + cells * spec["dx0"][cn], [names[0], names[1]], None, model, path, truth, batch,
+                     how=["api", "cli"][k])
+    c07.flush_model(rep, batch)
     # above the one-megabyte splitting threshold
     spec = big_spec(ctx.rng)
     run_case(ctx, rep, spec, 2, "L0:centre", 0.25, list(spec["fields"]), None, model, big=True)
